@@ -74,10 +74,13 @@ def merge_copyright_lines(copyright_lines: set[str]) -> set[str]:
 
         year: Optional[str] = None
         if years:
-            if min(years) == max(years):
-                year = min(years)
+            # Compare the years as numbers: as strings, digits of another
+            # script ('２０１６') sort after every ASCII year.
+            first, last = min(years, key=int), max(years, key=int)
+            if int(first) == int(last):
+                year = first
             else:
-                year = f"{min(years)} - {max(years)}"
+                year = f"{first} - {last}"
 
         # The statement is the statement part of a notice that was just parsed,
         # so build the line directly. make_copyright_line would return the
